@@ -147,7 +147,7 @@ fn pub_region(pos: usize, m: usize, n: usize) -> &'static str {
 
 pub fn run(ctx: &Ctx, which: Which) {
     let small: Vec<(usize, usize)> = vec![(1, 1), (1, 2), (2, 1), (2, 2), (3, 2), (2, 3), (3, 3), (4, 4), (4, 1), (1, 4)];
-    let big: Vec<(usize, usize)> = ctx.tier.pick(vec![(8, 8)], vec![(8, 8), (16, 4), (4, 16)]);
+    let big: Vec<(usize, usize)> = ctx.tier.pick(vec![(8, 8)], vec![(8, 8), (16, 4), (4, 16), (64, 1), (1, 64), (64, 2), (32, 32)]);
     let n_random = ctx.tier.pick(200_000usize, 2_000_000);
     let n_big = ctx.tier.pick(256usize, 5_000);
     ctx.set_rule(&format!(
